@@ -261,3 +261,35 @@ Fixpoint tarfs_open (fuel : nat) (idx : list (string * tent)) (name : string) (h
 Definition tarfs_fuel : nat := Z.to_nat (tarfs_max_hops + 2).
 Definition tarfs_open_name (es : list (string * tent)) (name : string) : res string :=
   tarfs_open tarfs_fuel (tar_index es) name 0.
+
+(* ======================================================================================== *)
+(* 5. final round: the `for { x, err := r.Next() ... }` loops over tar entries (twelve sites, found by
+      shape: Generated tar_next_loops). The reader is abstract: [next n] = what Next answers when [n]
+      bytes of the (decompressed) stream are left — an entry and what is left after its header (the body
+      is skipped by the following Next, which only shrinks the rest further), the end of the archive, or
+      an error; an error is what Next keeps answering from then on (archive/tar remembers it: tr.err).
+      [body n'] = the loop body for that entry: it goes on, or leaves the loop with an error (or a result).
+      The loop itself: [leave_eof] / [leave_err] = what goextract reads at the site: io.EOF tested on its
+      own leaves; `err != nil` (which io.EOF is as well) leaves. A site where neither held would turn
+      forever on the error it is handed again and again: OutOfFuel. Result: the number of turns. *)
+Inductive tev := TEntry (rest : N) | TEof | TErr.
+Section TarLoop.
+Variable next : N -> tev.
+Variable body : N -> bool.
+Fixpoint tar_loop (leave_eof leave_err : bool) (fuel : nat) (n : N) (turns : nat) : res nat :=
+  match fuel with
+  | O => OutOfFuel
+  | S f =>
+      match next n with
+      | TEntry n' => if body n' then tar_loop leave_eof leave_err f n' (S turns) else Err
+      | TEof => if leave_eof || leave_err then Ok (S turns) else tar_loop leave_eof leave_err f n (S turns)
+      | TErr => if leave_err then Err else tar_loop leave_eof leave_err f n (S turns)
+      end
+  end.
+End TarLoop.
+(* archive/tar's contract the bound rests on: a header is a block of 512 bytes, read before Next returns it *)
+Definition tar_block : N := 512%N.
+Definition consumes (next : N -> tev) : Prop := forall n n', next n = TEntry n' -> (n' + tar_block <= n)%N.
+Definition tar_fuel (n : N) : nat := S (N.to_nat (n / tar_block)).
+Definition site_loop (site : string * (bool * bool)) next body (n : N) : res nat :=
+  tar_loop next body (fst (snd site)) (snd (snd site)) (tar_fuel n) n O.
